@@ -32,6 +32,8 @@ type stProp struct{ flavor string }
 func (p stProp) Exec(in Sx) (Sx, bool) { return stExec(in) }
 
 type stGenThread struct {
+	fed    int
+	size   int
 	kind   int // 1 put, 2 get, 3 gfc
 	chunks [][]byte
 	endErr int
@@ -171,6 +173,41 @@ func (p stProp) Gen(r *Rand, idx int, tier string) Sx {
 	ops := []Sx{}
 	inst := func() int { return r.Intn(len(anc)) }
 	for len(ops) < nops {
+		// directed quarantine scenario: an upload is in flight into a block, the whole
+		// medium is garbled, a read of an earlier object of that block detects it, and
+		// only then the in-flight upload finishes (it must fail, and stay invisible)
+		if corrupt && nblocks > 0 && r.Chance(12) {
+			readerParked := false
+			for _, t := range threads {
+				if t.kind != 1 || (t.size > 0 && t.fed == t.size) {
+					readerParked = true
+				}
+			}
+			small := []int{}
+			for o := 0; o < nobj; o++ {
+				if len(objs[o]) > 0 && len(objs[o])*3 <= bs {
+					small = append(small, o)
+				}
+			}
+			if !readerParked && len(small) >= 2 {
+				a := small[r.Intn(len(small))]
+				b := small[r.Intn(len(small))]
+				ia, ib := inst(), inst()
+				ta, tb, tg, tg2 := nextTid, nextTid+1, nextTid+2, nextTid+3
+				nextTid += 4
+				ops = append(ops, L(A(1), AI(ta), AI(a), AI(ia)), L(A(2), AI(ta), LBytes(objs[a])), L(A(3), AI(ta), A(0)))
+				ops = append(ops, L(A(1), AI(tb), AI(b), AI(ib)))
+				cut := r.Intn(len(objs[b])) // strictly inside: the completing chunk comes after the corruption
+				ops = append(ops, L(A(2), AI(tb), LBytes(objs[b][:cut])))
+				for reg := 0; reg < nblocks; reg++ {
+					ops = append(ops, L(A(9), AI(reg), A(0), AI(bs)))
+				}
+				ops = append(ops, L(A(4), AI(tg), AI(a), AI(ia)), L(A(5), AI(tg)))
+				ops = append(ops, L(A(2), AI(tb), LBytes(objs[b][cut:])), L(A(3), AI(tb), A(0)))
+				ops = append(ops, L(A(4), AI(tg2), AI(b), AI(ib)), L(A(5), AI(tg2)))
+				continue
+			}
+		}
 		// rotation burst while something is parked: complete uploads of large
 		// objects force PushBack/PopFront under a held reader, an in-flight
 		// writer or a slicer that dropped the lock
@@ -210,6 +247,7 @@ func (p stProp) Gen(r *Rand, idx int, tier string) Sx {
 			case 1:
 				if len(t.chunks) > 0 {
 					ops = append(ops, L(A(2), AI(tid), LBytes(t.chunks[0])))
+					t.fed += len(t.chunks[0])
 					t.chunks = t.chunks[1:]
 				} else {
 					ops = append(ops, L(A(3), AI(tid), AI(t.endErr)))
@@ -247,7 +285,7 @@ func (p stProp) Gen(r *Rand, idx int, tier string) Sx {
 			}
 			tid := nextTid
 			nextTid++
-			threads[tid] = &stGenThread{kind: 1, chunks: stSplit(r, data), endErr: endErr}
+			threads[tid] = &stGenThread{kind: 1, chunks: stSplit(r, data), endErr: endErr, size: len(objs[o])}
 			ops = append(ops, L(A(1), AI(tid), AI(o), AI(inst())))
 			if r.Chance(55) { // run it to completion right away
 				t := threads[tid]
@@ -312,7 +350,13 @@ func (p stProp) Gen(r *Rand, idx int, tier string) Sx {
 				delete(threads, tid)
 			}
 		default:
-			if corrupt && nblocks > 0 {
+			pendingFull := false
+			for _, t := range threads {
+				if t.kind != 1 || (t.size > 0 && t.fed == t.size) {
+					pendingFull = true // a reader is open, or an upload's completing chunk is withheld
+				}
+			}
+			if corrupt && nblocks > 0 && !pendingFull {
 				off := r.Intn(bs)
 				ln := 1 + r.Intn(bs-off)
 				ops = append(ops, L(A(9), AI(r.Intn(nblocks)), AI(off), AI(ln)))
